@@ -180,7 +180,8 @@ def check(prog: Program, tier: str) -> Result:
                          "import normalisation must hold for ANY layout of the imported packages: a memoised lookup answers for the layout of an earlier call "
                          "(another working directory, an edited or moved module), so star-imports are expanded to names the module no longer exports")
     _r18_18(prog, res)
-    res.floors.update({"R18.1": 6, "R18.2": 2, "R18.4": 1, "R18.5": 1, "R18.10": 3, "R18.11": 2, "R18.12": 1, "R18.13": 3, "R18.14": 2, "R18.15": 4, "R18.16": 1, "R18.17": 2, "R18.18": 1})
+    _r18_13_census(prog, res)
+    res.floors.update({"R18.1": 6, "R18.2": 2, "R18.4": 1, "R18.5": 1, "R18.10": 3, "R18.11": 2, "R18.12": 1, "R18.13": 4, "R18.14": 2, "R18.15": 4, "R18.16": 1, "R18.17": 2, "R18.18": 1})
     res.analysed["importfrom_constructions"] = n
     return res
 
@@ -617,6 +618,59 @@ def _r18_12(prog: Program, res: Result) -> None:
                    "`try: pass ...` plus an unguarded `import tomllib` at module level")
 
 
+# ------------------------------------------------------------------------------------------------ R18.13 (census of __all__)
+def _r18_13_census(prog: Program, res: Result) -> None:
+    """The export model reads `__all__ = [..]`, `.extend([..])`, `.append("..")`.  Every OTHER way of building the list
+    (`__all__ += [..]`, `__all__ = a.__all__ + [..]`, names taken from objects) leaves the model with too few names, and its negative
+    answer "not exported" then unbinds a name the star import does bind.  Obligation: (a) the function that answers from the model
+    gives up before the membership test whenever a census of the places that spell `__all__` does not equal the number of statements
+    it understood (a repository predicate whose body walks `ast.Name(id="__all__")` and compares counts, negative on the path);
+    (b) the predicate that decides whether a star import may be removed (R18.15) answers "cannot tell" under the same census."""
+    from ..pathcond import PathAnalysis, plain
+    census = [f for f in prog.funcs.values() if f.mod.name == "tracing" and "__all__" in norm(f.node) and "ast.Name(id='__all__')" in norm(f.node)
+              and any(isinstance(c, ast.Compare) and isinstance(c.ops[0], (ast.NotEq, ast.Eq)) for r in walk_own(f.node) if isinstance(r, ast.Return) and r.value is not None for c in ast.walk(r.value))
+              and len(f.posparams) == 1]
+    names = {f.node.name for f in census}
+    tr = prog.func("tracing", "trace_origin")
+    # (a) the negative answers of the export model
+    sites = []
+    for r in walk_own(tr.node):
+        if isinstance(r, ast.Return) and isinstance(r.value, ast.Constant) and r.value.value is None:
+            t = parent(r)
+            if isinstance(t, ast.If) and isinstance(t.test, ast.Compare) and isinstance(t.test.ops[0], ast.NotIn) and "all" in norm(t.test.comparators[0]).lower():
+                sites.append(r)
+    if not sites:
+        res.undecided("R18.13", tr.loc(), tr.fq, "negative answer of the export model", "`if name not in <filter>: return None` not found")
+        return
+    pa = PathAnalysis(prog, tr)
+    for r in sites:
+        worlds = pa.worlds_at(r)
+        ok = bool(names) and bool(worlds) and all(any(f[0] == "lit" and not f[2] and any(plain(f[1]).startswith(n_ + "(") for n_ in names) for f in w.facts) for w in worlds)
+        res.decide(ok, "R18.13", tr.loc(r), tr.fq, f"{short(parent(r).test, 50)} -> not exported # census of the places that spell __all__",
+                   "answered only when every mention of __all__ was one of the statements the model reads" if ok else
+                   "the model answers `not exported` from the statements it understands and never asks whether there are others: with `__all__ += ['name']` in the module "
+                   "the name is taken for not exported, the star import is expanded without it and the name is unbound")
+    # (b) the sibling predicate
+    # the predicate is found the way R18.15 finds it: a one-argument repository call on the removed star import whose negative
+    # outcome holds at the removal
+    fs = prog.funcs.get(("tracing", "fix_starred_imports"))
+    preds = {}
+    if fs is not None:
+        pa_fs = PathAnalysis(prog, fs)
+        for y in [y for y in walk_own(fs.node) if isinstance(y, ast.Yield) and isinstance(y.value, ast.Tuple) and len(y.value.elts) >= 2
+                  and isinstance(y.value.elts[1], ast.Constant) and y.value.elts[1].value is None]:
+            victim = norm(y.value.elts[0])
+            for c in prog.calls_in(fs):
+                r_ = prog.resolve_call(c.func, fs.mod, fs)
+                if r_ and r_[0] == "fn" and len(c.args) == 1 and norm(c.args[0]) == victim and pa_fs.holds_at(y, lambda w, c=c: pa_fs.formula(c, w, False))[0]:
+                    preds[r_[1].key] = r_[1]
+    for pred in preds.values():
+        uses = any(isinstance(c, ast.Call) and norm(c.func) in names for c in ast.walk(pred.node))
+        res.decide(uses, "R18.13", pred.loc(), pred.fq, f"{pred.node.name}() # census of the places that spell __all__",
+                   "a module whose __all__ is built in a way that is not read is `cannot tell`" if uses else
+                   "the predicate says `can tell` for a module whose __all__ is built with += or from other values: the star import is removed although names it binds were not seen")
+
+
 # ------------------------------------------------------------------------------------------------ R18.18
 def _r18_18(prog: Program, res: Result) -> None:
     """Contradiction rule for the standard-library table.  A function that asks `X in constants.PYTHON_311_STDLIB` more than once
@@ -1045,6 +1099,8 @@ def _r18_6(prog: Program, res: Result) -> None:
 from ..selftest import Variant  # noqa: E402
 
 VARIANTS = [
+    Variant("export-model-answers-without-the-census", "FIRE", "tracing", "        if _export_list_is_opaque(root):\n            return None  # Neither \"exported\" nor \"not exported\" can be said of any name\n\n", "", "R18.13"),
+    Variant("star-import-predicate-without-the-census", "FIRE", "tracing", "    return _export_list_is_opaque(origin_root)\n", "    return False\n", "R18.13"),
     Variant("imports-hoisted-over-imports-of-the-same-name", "FIRE", "fixes", "    ambiguous_names = _names_imported_from_several_origins(root)\n    imports_movable_to_toplevel = {\n        node\n        for node in imports_movable_to_toplevel\n        if ambiguous_names.isdisjoint(\n            (alias.asname or alias.name).split(\".\")[0] for alias in node.names\n        )\n    }\n", "", "R18.14"),
     Variant("dotted-import-unused-when-the-bare-package-is-imported-somewhere", "FIRE", "fixes", '    return {name for name in imports - names - {"*"} if name.split(".")[0] not in names}\n',
             '    return {\n        name\n        for name in imports - names - {"*"}\n        if name.split(".")[0] not in names or ("." in name and name.split(".")[0] in imports)\n    }\n', "R18.9"),
